@@ -24,6 +24,7 @@ func profile() sim.Profile {
 	pf.PSmallPodSlots = 2
 	pf.MaxCycles = 3
 	pf.Contention = true
+	pf.PDRA = 3
 	return pf
 }
 
